@@ -74,6 +74,10 @@ func init() {
 		c08 = append(c08,
 			func() Harness {
 				h := c08win(pk, pk+":headers", P("k", kq, "region", 1), P("k", kt, "region", 1), fmt.Sprintf("every header position, k=%d", kq), fmt.Sprintf("every header position, k=%d", kt), 0)
+				if pk == "jpeg/baseline" || pk == "jpeg/extended" {
+					// component buffers are multiples of 64 samples
+					h.AllocCut = 1024
+				}
 				if pk == "jpeg/extended" {
 					// float IDCT on symbolic tables: minutes per position; thorough tier only
 					h.OnlyTier = 2
@@ -100,7 +104,7 @@ func init() {
 		Harness{Pkg: "rle", Fn: "VerifC08RLE", AllocCut: 64, Params: [2]map[string]int64{P("hdr", 1, "data", 3), P("hdr", 2, "data", 3)}, Bounds: [2]string{"10 frame descriptions x symbolic segment count + 3 data bytes + truncations", "+ symbolic first offset"}, Desc: "rle.Codec.Decode with frame descriptions covering zero fields / BitsAllocated 0 and 65535 / >15 planes, symbolic header words and data"},
 	)
 	reg(Check{Property: "C08", Harnesses: c08,
-		Assumptions: []string{"allocation cut: after a make() with a symbolic size the path continues under size <= 48 (64 for JPEG 2000/RLE) elements; larger declared sizes are outside the C08 claim", "inputs are the stated templates: a valid stream with one symbolic window, or a short free string; arbitrary long inputs are outside the claim"}})
+		Assumptions: []string{"allocation cut: after a make() with a symbolic size the path continues under size <= 48 elements (64 for JPEG 2000/RLE, 1024 for the DCT decoders' component buffers); larger declared sizes are outside the C08 claim", "inputs are the stated templates: a valid stream with one symbolic window, or a short free string; arbitrary long inputs are outside the claim"}})
 
 	c17 := func(pkg, fn, desc string, stubs ...string) Harness {
 		return Harness{Pkg: pkg, Fn: fn, Desc: desc, Stubs: stubs, Bounds: [2]string{"all int arguments as 64-bit symbols; buffer lengths {0,1,5,12}", "same"}}
@@ -132,5 +136,30 @@ func init() {
 			{Pkg: "jpeg2000/mqc", Fn: "VerifC20MQDecVsRef", Desc: "library MQ decoder vs a transcription of the Annex C decoding procedures on fully symbolic codeword bytes (every FF xx pair, end-of-data handling)", Bounds: [2]string{"3 codeword bytes, 8 decisions, one context", "5 codeword bytes, 14 decisions"}, Params: [2]map[string]int64{P("bytes", 3, "k", 8), P("bytes", 5, "k", 14)}},
 			{Pkg: "jpeg2000/t1", Fn: "VerifC20T1Styles", Desc: "EncodeLayered -> DecodeLayeredWithMode with the encoder's pass lengths for code-block styles (bypass, reset, terminate-all, vertically causal, predictable termination, segmentation symbols): 2-sample blocks with one 5-bit-plane coefficient next to a small one, values and signs symbolic", Bounds: [2]string{"3 styles x 2 orientations", "9 styles x 4 orientations"}, Params: [2]map[string]int64{P("styles", 3, "orients", 2), P("styles", 9, "orients", 4)}, Enumerative: true},
 			{Pkg: "jpeg2000/t1", Fn: "VerifC20T1", Desc: "T1 Encode -> DecodeWithBitplane on small blocks, all passes, orientation 0..3, style 0; sign and magnitude bits symbolic", Bounds: [2]string{"blocks 1x1,2x1,1x2, |c| < 4", "+ 2x2, 1x5, |c| < 4 (1x1..1x2: < 8)"}, Params: [2]map[string]int64{P("shapes", 3, "magbits", 2), P("shapes", 5, "magbits", 2)}, Enumerative: true, BudgetS: [2]int{240, 3000}},
+		}})
+
+	lsInv := "adaptive context state is arbitrary under the invariant 1 <= N <= RESET(64), 0 <= A < 2^24, -N < B <= 0, -128 <= C <= 127 (shown preserved by the same harness); neighbours and sample arbitrary in [0, MAXVAL]"
+	golombCut := "(*GolombWriter).EncodeMappedValue / (*GolombReader).DecodeValue cut to a tape under the engine; the cut's precondition (value representable by the limited-length code) is asserted at the cut and the real pair is decided inverse under that precondition by VerifC03Golomb"
+	reg(Check{Property: "C03",
+		Assumptions: []string{lsInv, "run mode (run-length coding, run interruption) and the line/neighbour bookkeeping of encodeComponent/decodeComponent are NOT covered: whole-image symbolic execution of JPEG-LS did not finish within the budget (2x1 at P=8: > 15 min)"},
+		Harnesses: []Harness{
+			{Pkg: "jpegls/lossless", Fn: "VerifC03Regular", Desc: "one regular-mode sample, real encodeRegularSample and decodeRegularSample in lock-step from an arbitrary context state: decoder reconstructs the sample, states stay equal, invariant preserved, Golomb precondition holds",
+				Bounds: [2]string{"P in {7,12} x context sign +; P=16 covered in thorough", "every P 2..16 x 2 context ids (one per sign)"}, Params: [2]map[string]int64{P("nP", 2, "nqs", 1), P("nP", 15, "nqs", 2)}, Stubs: []string{golombCut}, BudgetS: [2]int{400, 3300}},
+			{Pkg: "jpegls/lossless", Fn: "VerifC03Golomb", Desc: "real limited-length Golomb code: EncodeMappedValue -> DecodeValue for symbolic mapped values, k 0..8, six precisions, with following bits and JPEG-LS bit stuffing checked",
+				Bounds: [2]string{"k <= 8, P in {2,3,7,8,12,16}", "k <= 16"}, Params: [2]map[string]int64{P("maxK", 8), P("maxK", 16)}},
+		}})
+	reg(Check{Property: "C07",
+		Assumptions: []string{lsInv, "run mode and whole-image bookkeeping are not covered (see C03)"},
+		Harnesses: []Harness{
+			{Pkg: "jpegls/nearlossless", Fn: "VerifC07Traits", Desc: "quantise -> modulo RANGE -> dequantise -> fix-up kernel for every precision: |reconstruction - x| <= NEAR and 0 <= reconstruction <= MAXVAL for all (prediction, sample)",
+				Bounds: [2]string{"P 2..16, NEAR in {0,1,2,3,min(255,MAXVAL/2)}", "P 2..16, 20 NEAR values up to min(255,MAXVAL/2)"}, BudgetS: [2]int{300, 2400}},
+			{Pkg: "jpegls/nearlossless", Fn: "VerifC07Regular", Desc: "one regular-mode sample of the near-lossless coder in lock-step from an arbitrary context state: |decoded - x| <= NEAR, range, encoder reconstruction == decoder reconstruction, states equal",
+				Bounds: [2]string{"P=8, NEAR=0, 1 context", "P in {8,12}, NEAR in {0,1,2,3}, 2 contexts (within the wall budget)"}, Params: [2]map[string]int64{P("fix.Pi", 1, "fix.near", 0, "fix.q", 0), P("nP", 2)}, Stubs: []string{golombCut}, BudgetS: [2]int{400, 3300}},
+		}})
+	reg(Check{Property: "C14",
+		Assumptions: []string{lsInv, "reference = transcription of T.87 A.4.2-A.6.2 (refRegular in harness/jpegls/lossless/zz_verif_c14.go); NEAR = 0; run mode, the bit-exact stream, cross-decoding between the two packages and the H.3 vector are NOT covered"},
+		Harnesses: []Harness{
+			{Pkg: "jpegls/lossless", Fn: "VerifC14RegularVsRef", Desc: "library encoder's regular-mode step vs the T.87 procedure from an arbitrary state: same Golomb parameter, same mapped error value, same A/B/C/N afterwards",
+				Bounds: [2]string{"P in {7,12}, 1 context id", "every P 2..16, 2 context ids"}, Params: [2]map[string]int64{P("nqs", 1), P("nqs", 2)}, Stubs: []string{"EncodeMappedValue replaced by a recorder of (k, mapped) under the engine"}, BudgetS: [2]int{400, 3300}},
 		}})
 }
